@@ -85,6 +85,15 @@ pub static TREES: &[&str] = &[
     "use a::{self, self as g};",
     "use a::b::self;",
     "use a::b::{self as e};",
+    // a single-element sub-list next to a sibling with the same leading segment (normalisation flattens the
+    // sub-list, which changes how the element compares with its siblings)
+    "use a::{b::{c}, b::d};",
+    "use a::{b::{d}, b::c};",
+    "use a::{b::{c::{d}}, b::c::e};",
+    "use a::{b::{self}, b::c};",
+    "use a::{b::{*}, b::c};",
+    "use a::{b::{c as d}, b::e};",
+    "use a::{b::{c}, B, b};",
 ];
 
 fn norm_leaf_key(i: &ItemInfo, l: &Leaf, edition: u16) -> String {
@@ -123,7 +132,7 @@ fn runs(src: &str, edition: u16) -> Result<Vec<Result<Vec<String>, String>>, Str
     Ok(out.into_iter().filter(|r| !matches!(r, Ok(v) if v.is_empty())).collect())
 }
 
-fn cfgs(tier: Tier) -> Vec<Cfg> {
+pub(crate) fn cfgs(tier: Tier) -> Vec<Cfg> {
     let thorough = tier == Tier::Thorough;
     let mut out = vec![];
     let ses: &[u16] = if thorough { &[2015, 2024] } else { &[2024] };
@@ -220,6 +229,19 @@ impl Prop for C10 {
         // representatives of known defect classes that the restricted enumerations below would not reach
         seqs.push(("x0".into(), "use a::{b::d, c};\nuse a::b as e;\n".into()));
         seqs.push(("x1".into(), "use a::b::d;\nuse a::{b, b as e};\n".into()));
+        // a one-segment import of a keyword root with an alias, next to longer imports under the same root
+        // (the alias of the root has to survive merging)
+        let mut xi = 2;
+        for root in ["crate", "super", "a"] {
+            for long in ["R::a::b", "R::{c, d::e}", "R::*"] {
+                let one = format!("use {root} as k;");
+                let long = format!("use {};", long.replace('R', root));
+                // (the opposite order runs into the known One-granularity defect represented by x0:
+                // an aliased leaf that is also a shared prefix is merged into unparsable text)
+                seqs.push((format!("x{xi}"), format!("{one}\n{long}\n")));
+                xi += 1;
+            }
+        }
         let mut units = vec![];
         let cs = cfgs(tier);
         for (key, text) in &seqs {
